@@ -329,7 +329,7 @@ def run(ctx):
     if not ok:
         raise RuntimeError("cargo build failed:\n" + out[-3000:])
     model = core.ocaml_build("reserve", "reserve", "reserve_drv")
-    counts = dict(planner=3000 if ctx.quick else 90000, journal=4000 if ctx.quick else 120000, rule=6000 if ctx.quick else 150000, e2e=700 if ctx.quick else 14000)
+    counts = dict(planner=3000 if ctx.quick else 120000, journal=4000 if ctx.quick else 200000, rule=6000 if ctx.quick else 250000, e2e=700 if ctx.quick else 30000)
     diffs = {k: differential(ctx, k, bins["reserve"], model, counts[k]) for k in KINDS}
     corr_ok = all(d["first_diff"] is None for d in diffs.values())
 
